@@ -428,6 +428,39 @@ class MaskedArray:
         return ("marr", keyof(self.data))
 
 
+class SymIdx:
+    """A data-dependent integer index vector (argsort / searchsorted result) kept symbolic."""
+
+    __slots__ = ("op", "args")
+
+    def __init__(self, op, args):
+        self.op = op
+        self.args = args
+
+    def key(self):
+        return ("symidx", self.op, keyof(self.args))
+
+    def __repr__(self):
+        return f"<{self.op} index>"
+
+
+class SymArr:
+    """An array whose cells are selected by symbolic indices or produced by an uninterpreted array op."""
+
+    __slots__ = ("op", "args", "mods")
+
+    def __init__(self, op, args):
+        self.op = op
+        self.args = args
+        self.mods = []   # in-place item stores applied after construction: (index, value)
+
+    def key(self):
+        return ("symarr", self.op, keyof(self.args), keyof(self.mods))
+
+    def __repr__(self):
+        return f"<{self.op} array>"
+
+
 def is_arr(v):
     return isinstance(v, np.ndarray)
 
